@@ -231,6 +231,13 @@ def periodic_measure(traj, n, p, g):
     return span(d)
 
 
+def periodic_noise(vmax, eps, g, n):
+    """How far rounding can move the documented measure: differences of O(vmax) numbers carry
+    ~1e-16*vmax absolute error, which the division by gamma^(j-1) amplifies (1000 ulp allowed)."""
+    amp = 1.0 / (g ** (n - 1)) if g < 1 else 1.0
+    return 1e-13 * (1.0 + vmax) * amp + 1e-9 * eps
+
+
 def ref_periodic(nxt, rew, prob, g, eps, p, V0, max_iter):
     V = np.array(V0, dtype=float)
     traj, convs, border, conv_flag = [V.copy()], [], False, False
@@ -242,8 +249,7 @@ def ref_periodic(nxt, rew, prob, g, eps, p, V0, max_iter):
             continue
         c = periodic_measure(traj, n, p, g)
         convs.append(c)
-        scale = max(np.abs(V).max(), eps) / (g ** (n - 1) if g < 1 else 1.0)
-        if abs(c - eps) <= tol(scale, BORDER):
+        if abs(c - eps) <= periodic_noise(np.abs(V).max(), eps, g, n):
             border = True
         if c < eps:
             conv_flag = True
